@@ -357,25 +357,30 @@ LineCol(t, i) == IF Len(t) = 0 THEN <<1, 1>>
                  ELSE IF i <= Len(t) THEN LineColAcc(t, i, 1, 1, 1)
                  ELSE LET lc == LineColAcc(t, Len(t), 1, 1, 1) IN <<lc[1], lc[2] + 1>>
 
+\* every member is evaluated (a conjunction would stop reporting at the first FALSE)
+AllTrue(S) == S \subseteq {TRUE}
 CheckErr(i) ==
   LET e == Ev[i]
       t == e.text
       offs == Offs(t)
-  IN \A g \in 1..Len(e.errs) :
+      IsCtl(c) == (c >= 0 /\ c < 32 /\ c # 9 /\ c # 10) \/ c = 127
+  IN AllTrue({
        LET r == e.errs[g] IN
-       /\ IF r.msg_nonempty THEN TRUE
-          \* known finding F12: no message when the parser stops at a control character (incl. a bare CR, or
-          \* right after one) or at the end of input
+       AllTrue({
+          IF r.msg_nonempty THEN TRUE
+          \* known finding F12: no message when the parser stops at a control character (incl. a bare CR), right
+          \* after one (inside an array the comment parser has already stepped over it), or at the end of input
           ELSE IF r.span # <<>> /\ SpanWellFormed(r.span, offs) /\
                   LET cp == CpAt(offs, r.span[1]) c == At(t, cp) prev == At(t, cp - 1) IN
-                  cp > Len(t) \/ (c >= 0 /\ c < 32 /\ c # 9 /\ c # 10) \/ c = 127 \/ prev = 13
+                  cp > Len(t) \/ IsCtl(c) \/ IsCtl(prev)
                THEN Report(i, "err-empty-message-at-control-or-eof", [fe |-> r.fe, span |-> r.span]) /\ FALSE
-          ELSE Report(i, "err-empty-message", [fe |-> r.fe, span |-> r.span]) /\ FALSE
-       /\ IF ~r.render_panic THEN TRUE ELSE Report(i, "err-render-panic", [fe |-> r.fe]) /\ FALSE
-       /\ IF SpanWellFormed(r.span, offs) THEN TRUE ELSE Report(i, "err-span", [fe |-> r.fe, span |-> r.span]) /\ FALSE
-       /\ (r.span # <<>> /\ SpanWellFormed(r.span, offs)) =>
+          ELSE Report(i, "err-empty-message", [fe |-> r.fe, span |-> r.span]) /\ FALSE,
+          IF ~r.render_panic THEN TRUE ELSE Report(i, "err-render-panic", [fe |-> r.fe]) /\ FALSE,
+          IF SpanWellFormed(r.span, offs) THEN TRUE ELSE Report(i, "err-span", [fe |-> r.fe, span |-> r.span]) /\ FALSE,
+          (r.span # <<>> /\ SpanWellFormed(r.span, offs)) =>
             IF r.linecol = LineCol(t, CpAt(offs, r.span[1])) THEN TRUE
-            ELSE Report(i, "err-linecol", [fe |-> r.fe, span |-> r.span, impl |-> r.linecol, spec |-> LineCol(t, CpAt(offs, r.span[1]))]) /\ FALSE
+            ELSE Report(i, "err-linecol", [fe |-> r.fe, span |-> r.span, impl |-> r.linecol, spec |-> LineCol(t, CpAt(offs, r.span[1]))]) /\ FALSE})
+       : g \in 1..Len(e.errs)})
 
 \* ---- C04: every call of every entry point returns (ok or err) within the budget ----
 \* The call/return protocol has no action for panic, abort or timeout: an event listing one is rejected.
@@ -424,7 +429,6 @@ CheckHist(i) ==
 
 \* ---- C07 / C13 / C17: serde routes against SerdeModel.Enc ----
 \* (every conjunct is evaluated, so that each property gets its own report: sets are built eagerly)
-AllTrue(S) == S \subseteq {TRUE}
 CheckSerde(i) ==
   LET e == Ev[i]
       exp == Root(e.sdm)
